@@ -15,7 +15,7 @@ GLOBAL_ASSUMPTIONS = [
 # level per property (DESIGN.md summary table); "other" = mixed deductive + bounded parts
 LEVELS = {
     "C01": "proof", "C02": "other", "C03": "other", "C04": "proof", "C05": "proof", "C06": "proof", "C07": "proof",
-    "C08": "proof", "C09": "other", "C11": "other", "C12": "other", "C13": "other", "C14": "proof", "C15": "proof",
+    "C08": "proof", "C09": "other", "C10": "other", "C11": "other", "C12": "other", "C13": "other", "C14": "proof", "C15": "proof",
     "C17": "other", "C18": "proof",
 }
 
